@@ -26,6 +26,8 @@ FIXED = [
  ("C15", "fix: rewrite truncated destination", "copy to destination x/o/y writes object x; (also C20: a rewrite path without /o/ panics)"),
  ("C11", "fix: listing with a delimiter repeated", "names a d/1 d/2 d/3 e g/x h, delimiter /, maxResults 2 -> pages [a d/] [d/] and nothing after; a page holding only prefixes ends the listing"),
  ("C11", "fix: file store listed", "file store: names a.txt and a/b are listed as [a/b a.txt]; with prefix=a, delimiter=/ the items a.txt and a0 are skipped (directory a/ walked before a.txt; also C09)"),
+ ("C07", "fix: upload and patch responses were read", "two concurrent unconditional uploads of one object both report the same generation in their responses; upload racing a delete dereferences nil metadata (server panic, also C20)"),
+ ("C07", "fix: object reads could observe", "file store: metadata GET during an upload returns the new file's own mtime as generation with metageneration 0 (content written, sidecar not yet)"),
  ("C17", "fix: leveldb row iteration ignored", "leveldb engines: a filter error raised on a non-last row is overwritten by the next row; read ends OK with the row missing (btree returns InvalidArgument; seen through C05)"),
 ]
 OPEN = [
